@@ -408,6 +408,22 @@ def c19(run, args):
         lb[0]["scan_wait_ms"], lb[0]["retention_sleep_ms"] = 61000, 1000
         replay_and_validate(run, vh, lb, "c19s")
 
+    # a listener that cannot bind at start-up (its port is taken), the services assembled and started as cmd/inbucket does it:
+    # the failure is reported and main's shutdown sequence (cancel, drain, drain, join) completes (StartFaultTrace.tla)
+    sf = run.path("startfault.ndjson")
+    with open(sf, "w") as out:
+        for which in ("smtp", "pop3", "web"):
+            one = run.path("startfault-%s.ndjson" % which)
+            run.harness(vh, ["startfault", which, one], timeout=120)
+            out.write(open(one).read())
+    sres = run.validate("StartFaultTrace", "SPECIFICATION TraceSpec\nPOSTCONDITION TraceAccepted\nCHECK_DEADLOCK FALSE\n", sf, max_rej=4, parallel=1)
+    run.cov["evaluations"] += 3
+    for r in sres["rejections"]:
+        ev = r["rejected_event"]
+        run.violation("C19 start-up fault: the %s listener could not bind; failure reported=%s, then after cancel: SMTP drain returned=%s, POP3 drain returned=%s, "
+                      "retention scanner Join returned=%s (each within 5 s): shutdown does not complete" % (
+                          ev.get("which"), ev.get("notified"), ev.get("smtp_drain"), ev.get("pop3_drain"), ev.get("join")),
+                      {"behaviour": {"startfault": ev.get("which")}, "rejection": r, "replay_kind": "startfault"})
     run.cov["rule"] = ("TLC enumerates shutdown schedules from GenLifecycle.tla: setup = 1..3 sessions, each parked in a protocol state (SMTP: after banner, after HELO, after "
                        "MAIL+RCPTs, DATA with the body half transmitted; POP3: AUTHORIZATION, TRANSACTION, TRANSACTION with DELE marks) or accepted-but-held at the spawn gate "
                        "(before the session registers with the wait group), then the shutdown request (ctx cancel; the driver waits for Start, the hub loop, the scanner's "
